@@ -48,6 +48,7 @@ type Step struct {
 	Opt    string `json:"opt,omitempty"`     // Allocate option: evenport | token | token+even | dontfrag | notransport | badtransport | token+fam
 	Content string `json:"content,omitempty"` // payload content class: "" random, zero, stun, chandata, x4000
 	Pad    string `json:"pad,omitempty"`     // ChannelData from client: "" padded, none
+	RespLost bool `json:"resp_lost,omitempty"` // the listener socket fails to write the response (CreatePermission / ChannelBind)
 }
 
 // Script is a whole case.
